@@ -1,8 +1,8 @@
 Require Extraction.
 Require Import ExtrOcamlBasic.
 From LedgerV Require Import Base.Prelude Base.Round Base.ExtractHelpers Model.Amount Model.Buffers Model.Nesting
-  Model.Stepping Model.FormatRef Model.Aliases Gen.BufferSites Gen.SafetyGuards.
+  Model.Stepping Model.FormatRef Model.Aliases Model.UnknownPayee Model.Width Gen.BufferSites Gen.SafetyGuards.
 Extraction "model_C11.ml" h_add h_mul h_div h_mod h_opp h_ltb h_eqb h_qred h_qmake h_qnum h_qden
   aeval extent write_ok outcome_of site_table read_into getline_store parse_depth nest
-  period_start parse_guarded within_limit query_accept field_ref number_from src_format_field_ref_guard expand src_alias_records_what_it_looks_up src_parse_depth_limit src_expr_token_limit src_query_depth_limit
+  period_start parse_guarded within_limit query_accept field_ref number_from src_format_field_ref_guard expand src_alias_records_what_it_looks_up register_unknown src_unknown_payee_tests_post_and_xact ustr_width is_cut src_unistring_width_clamps_negative src_parse_depth_limit src_expr_token_limit src_query_depth_limit
   src_query_term_limit src_roundto_places_limit src_period_zero_guard src_max_line src_line_getline.
